@@ -51,11 +51,11 @@ def make_case(rng, stream, big=False):
         return p, steps, norm_meta({}, 'td')
     if stream == 'same_session':
         p, steps, meta = P.gen_same_session_program(rng)
-        m = norm_meta({}, 'td'); m['impl_only'] = True
+        m = norm_meta({}, 'td')         # compared with the model (Build.run_zsession)
         return p, steps, m
     if stream == 'same_abort':
         p, steps, meta = P.gen_same_abort_program(rng)
-        m = norm_meta({}, 'td'); m['impl_only'] = True
+        m = norm_meta({}, 'td')         # compared with the model (Build.run_zsession)
         return p, steps, m
     if stream == 'td_mid':
         p, steps, meta = P.gen_td_mid_program(rng)
